@@ -379,6 +379,24 @@ func c20TrackIndex(c *Ctx) {
 // P, Q, T: results 0, 1, 2 of getPathAndQuery / getPathAndQueryAndTrackID
 // applied to the request's URL; "empty"; "sess.<field>" for session fields;
 // anything else is "other:<desc>".
+// c20Subst maps parameters of helpers being looked through to the caller's arguments.
+var c20Subst = map[*ssa.Parameter]ssa.Value{}
+
+func c20Resolve(v ssa.Value) ssa.Value {
+	for i := 0; i < 8; i++ {
+		q, ok := v.(*ssa.Parameter)
+		if !ok {
+			return v
+		}
+		a, mapped := c20Subst[q]
+		if !mapped {
+			return v
+		}
+		v = a
+	}
+	return v
+}
+
 func c20Origins(p *core.Prog, v ssa.Value, out map[string]bool, seen map[ssa.Value]bool) {
 	if seen[v] {
 		return
@@ -402,8 +420,9 @@ func c20Origins(p *core.Prog, v ssa.Value, out map[string]bool, seen map[ssa.Val
 			return
 		}
 		name := core.CalleeObjName(call)
-		if strings.HasSuffix(name, ".getPathAndQuery") || strings.HasSuffix(name, ".getPathAndQueryAndTrackID") {
-			arg := core.PathOf(call.Call.Args[0])
+		cal := call.Call.StaticCallee()
+		if isFn(cal, "", "getPathAndQuery") || isFn(cal, "", "getPathAndQueryAndTrackID") {
+			arg := core.PathOf(c20Resolve(call.Call.Args[0]))
 			if !strings.HasSuffix(arg, ".URL") {
 				out["other:analysis of "+arg] = true
 				return
@@ -411,7 +430,35 @@ func c20Origins(p *core.Prog, v ssa.Value, out map[string]bool, seen map[ssa.Val
 			out[[]string{"P", "Q", "T", "err"}[x.Index]] = true
 			return
 		}
+		// a helper of the root package that hands the analysis results on: look through it,
+		// binding its parameters to the arguments of this call
+		if cal != nil && cal.Blocks != nil && core.FuncPkg(cal) != nil && core.FuncPkg(cal).Path() == core.ModPath && len(c20Subst) < 64 {
+			var bound []*ssa.Parameter
+			for i, prm := range cal.Params {
+				if i < len(call.Call.Args) {
+					if _, had := c20Subst[prm]; !had {
+						c20Subst[prm] = c20Resolve(call.Call.Args[i])
+						bound = append(bound, prm)
+					}
+				}
+			}
+			for _, rt := range core.Returns(cal) {
+				if x.Index < len(rt.Results) {
+					c20Origins(p, rt.Results[x.Index], out, seen)
+				}
+			}
+			for _, prm := range bound {
+				delete(c20Subst, prm)
+			}
+			return
+		}
 		out["other:result of "+name] = true
+	case *ssa.Parameter:
+		if r := c20Resolve(x); r != ssa.Value(x) {
+			c20Origins(p, r, out, seen)
+			return
+		}
+		out["other:"+core.PathOf(v)] = true
 	case *ssa.UnOp:
 		if x.Op != token.MUL {
 			out["other:"+x.String()] = true
